@@ -74,8 +74,20 @@ func (e *DefaultExecutor) Execute(ctx context.Context, job *Job) ([]byte, error)
 		return nil, err
 	}
 
-	env := e.env
-	env = append(env, utils.ConvertEnv(utils.ConvertToMapOfStrings(job.Env.Map()))...)
+	// the job's environment overrides the parent process environment: a name defined by the
+	// job is removed from the inherited list, otherwise the interpreter's de-duplication
+	// (sort, keep the last of equal names) would pick the winner by comparing the values
+	jobEnv := utils.ConvertToMapOfStrings(job.Env.Map())
+	env := make([]string, 0, len(e.env)+len(jobEnv))
+	for _, kv := range e.env {
+		if sep := strings.IndexByte(kv, '='); sep > 0 {
+			if _, overridden := jobEnv[kv[:sep]]; overridden {
+				continue
+			}
+		}
+		env = append(env, kv)
+	}
+	env = append(env, utils.ConvertEnv(jobEnv)...)
 
 	if job.Dir == "" {
 		job.Dir = e.dir
